@@ -116,9 +116,11 @@ FailedRun(v, c, k, o) ==
   IF r.cmd = "samvar" THEN SamVarFailed(v, c, k, o) ELSE
   IF r.cmd = "toma" THEN
        (IF c.d1 /\ ~TomaOK(v, c, r, ro) THEN {"C01-row"} ELSE {})
+       \cup (IF CliBad(ro) THEN {"C01-cli-wiring", "C15-cli-wiring"} ELSE {})
        \cup (IF ro.err = "" /\ ~TomaWrapOK(v, r, ro) THEN {"C15-wrap"} ELSE {})
        \cup (IF (r.s # -1 \/ r.e # -1) /\ r.wrap = -1 /\ HasUntrimmed(v, r.pad) /\ ~WindowRelOK(v, k, o) THEN {"C15-window"} ELSE {})
   ELSE (IF c.d2 /\ ~TopaOK(v, c, r, ro) THEN {"C02-pair"} ELSE {})
+       \cup (IF CliBad(ro) THEN {"C02-cli-wiring", "C15-cli-wiring"} ELSE {})
        \cup (IF ro.err = "" /\ ~TopaWrapOK(v, r, ro) THEN {"C15-wrap"} ELSE {})
        \cup (IF c.d2 /\ ro.err = "" /\ HasUntrimmed(v, TRUE) /\ ~TopaDerivedOK(v, r, ro, o.runs[Untrimmed(v, TRUE)]) THEN {"C02-derived"} ELSE {})
        \cup (IF (r.s # -1 \/ r.e # -1) /\ ~r.skipins /\ r.wrap = -1 /\ ~TopaWindowRelOK(v, k, o) THEN {"C15-pair-window"} ELSE {})
